@@ -14,16 +14,15 @@ start-definition rows, min-runtime rows and bound, min-downtime rows and bound, 
 cost extension and the fuel mapping rows.
 
 Quirks of the code that are reproduced on purpose (see notes/findings_chp.md):
-* the first-step UPPER ramp row is slack when on-variables exist and the unit is already running (F-06a);
 * the first-step LOWER ramp row has right-hand side `last_dispatch` (not `last_dispatch − ramp`) when
-  `time_already_running = 0`;
-* in ramp rows the heat of step `t−1` is weighted with the conversion factor of step `t`;
-* the initial-state bound assignments `l[on_idx : on_idx + R − tar] = 1`, `u[on_idx : on_idx + D − tao] = 0`
-  are slices of the WHOLE bound vector: when longer than the horizon they spill into the start variables;
+  `time_already_running = 0` (F-06c);
 * `include_on_variables` looks at the RAW `min_cap` argument (`np.any(self.min_cap != 0.)`): any interval
   dictionary or price key counts as non-zero;
 * the XOR guard on (`time_already_running`, `time_already_off`) is evaluated by the constructor on the raw
-  values, and only when the raw `min_downtime > 1`.
+  values, and only when the raw `min_downtime > 1` (F-06d).
+Repaired in /repo and followed here: first-step upper ramp row with on-variables is `v_0 − ramp·on_0 ≤ last`
+(F-06a); ramp rows weight the heat of step `t−1` with the conversion factor of step `t−1` (F-06e); the
+initial-state bound slices are limited to the on block (`min(R − tar, T)`, `min(D − tao, T)`: F-06f).
 -/
 namespace EAO
 
@@ -124,11 +123,6 @@ def CHPR.virt (r : CHPR) (i : Nat) (c : Rat) : List (Nat × Rat) :=
 def CHPR.vd (r : CHPR) (x : Vec) (i : Nat) : Rat :=
   x (r.layout.power i) + (if r.heat then r.cv i * x (r.layout.heat i) else 0)
 
-/-- the "previous" virtual dispatch as the ramp rows of step `t` read it: heat of step `t−1` weighted with
-    the conversion factor of step `t` -/
-def CHPR.vdPrev (r : CHPR) (x : Vec) (t : Nat) : Rat :=
-  x (r.layout.power (t - 1)) + (if r.heat then r.cv t * x (r.layout.heat (t - 1)) else 0)
-
 /-! ## row families -/
 
 def CHPR.capLower (r : CHPR) (i : Nat) : Row :=
@@ -142,9 +136,9 @@ def CHPR.capUpper (r : CHPR) (i : Nat) : Row :=
 def CHPR.capRows (r : CHPR) : List Row :=
   (List.range r.n).map r.capLower ++ (List.range r.n).map r.capUpper
 
-/-- `v_t − v_{t−1}` with the conversion factor of step `t` on BOTH heat terms -/
+/-- `v_t − v_{t−1}` -/
 def CHPR.rampDiff (r : CHPR) (t : Nat) : List (Nat × Rat) :=
-  r.virt t (r.cv t) ++ ((r.layout.power (t - 1), -1) :: (if r.heat then [(r.layout.heat (t - 1), - r.cv t)] else []))
+  r.virt t (r.cv t) ++ ((r.layout.power (t - 1), -1) :: (if r.heat then [(r.layout.heat (t - 1), - r.cv (t - 1))] else []))
 
 def CHPR.rampLower (r : CHPR) (ρ : Rat) (t : Nat) : Row :=
   { coeffs := r.rampDiff t ++ (if r.incOn then [(r.layout.on (t - 1), ρ)] else []),
@@ -159,7 +153,7 @@ def CHPR.rampFirstLower (r : CHPR) (ρ : Rat) : Row :=
 
 def CHPR.rampFirstUpper (r : CHPR) (ρ : Rat) : Row :=
   { coeffs := r.virt 0 (r.cv 0) ++ (if r.incOn then [(r.layout.on 0, - ρ)] else []),
-    rhs := if !r.incOn then r.last + ρ else if 0 < r.tar then r.last + r.maxCap 0 - ρ else r.last,
+    rhs := if !r.incOn then r.last + ρ else r.last,
     kind := .U }
 
 def CHPR.rampRows (r : CHPR) : List Row :=
@@ -238,13 +232,13 @@ def CHPR.lower (r : CHPR) : List Rat :=
   let l1 := if r.heat then List.replicate (2 * r.base.c.length) (0 : Rat) else l0
   let l2 := if r.incOn then l1 ++ List.replicate r.T 0 else l1
   let l3 := if r.incOn ∧ r.incStart then l2 ++ List.replicate r.T 0 else l2
-  if r.incStart ∧ 1 < r.R ∧ 0 < r.tar ∧ r.tar < r.R then setSlice l3 r.layout.onIdx (r.layout.onIdx + (r.R - r.tar)) 1 else l3
+  if r.incStart ∧ 1 < r.R ∧ 0 < r.tar ∧ r.tar < r.R then setSlice l3 r.layout.onIdx (r.layout.onIdx + min (r.R - r.tar) r.T) 1 else l3
 
 def CHPR.upper (r : CHPR) : List Rat :=
   let u1 := if r.heat then r.base.u ++ r.uHeat else r.base.u
   let u2 := if r.incOn then u1 ++ List.replicate r.T 1 else u1
   let u3 := if r.incOn ∧ r.incStart then u2 ++ List.replicate r.T 1 else u2
-  if 1 < r.D ∧ 0 < r.tao ∧ r.tao < r.D then setSlice u3 r.layout.onIdx (r.layout.onIdx + (r.D - r.tao)) 0 else u3
+  if 1 < r.D ∧ 0 < r.tao ∧ r.tao < r.D then setSlice u3 r.layout.onIdx (r.layout.onIdx + min (r.D - r.tao) r.T) 0 else u3
 
 def CHPR.cost (r : CHPR) : List Rat :=
   r.base.c ++ (if r.heat then List.zipWith (· * ·) r.conv r.base.c else []) ++
@@ -288,6 +282,15 @@ def CHPR.mapping (r : CHPR) : List MapRow :=
 /-- the asset problem generated from resolved inputs -/
 def assembleCHP (r : CHPR) : AssetProblem :=
   { name := r.name, nodes := r.nodes, c := r.cost, l := r.lower, u := r.upper, rows := r.rows, mapping := r.mapping }
+
+/-- decidable form of what `resolveCHP` guarantees about its result (one variable and one mapping row per
+    step, all of type 'd' when they are duplicated for the heat node; the include decisions cover `R > 1`,
+    `D > 1`, and start variables imply on variables).  The driver evaluates it on every request. -/
+def CHPR.commitOK (r : CHPR) : Bool :=
+  decide (0 < r.T) && decide (r.base.l.length = r.T) && decide (r.base.u.length = r.T) &&
+  decide (r.base.c.length = r.T) && decide (r.base.mapping.length = r.T) &&
+  (!r.heat || r.base.mapping.all fun m => m.kind == VarKind.d) &&
+  (!decide (1 < r.R) || r.incStart) && (!decide (1 < r.D) || r.incOn) && (!r.incStart || r.incOn)
 
 /-! ## resolution of the constructor arguments -/
 
@@ -333,6 +336,9 @@ def resolveCHP (p : CHPP) (base : AssetProblem) (g : Grid) (prices : Prices) (un
       let ci ← vec p.consumptionIfOn g prices 0 true
       if fe.any (· == 0) then throw .assertion
       pure (sf, fe, ci)
+  -- `np.hstack([c, conversion_factor_power_heat * c])`: numpy broadcast error when the base problem has two
+  -- variables per step (it is rejected a few lines later anyway: its lower bounds are negative)
+  if heat ∧ conv.length ≠ base.c.length ∧ conv.length ≠ 1 ∧ base.c.length ≠ 1 then throw .lengthMismatch
   let incStart0 := decide (1 < R) || startCosts.any (· != 0)
   let incOn0 := incStart0 || decide (1 < D) || rawNonzero p.minCap
   let incStart := if fuel.isSome then incStart0 || startFuel.any (· != 0) else incStart0
